@@ -19,9 +19,60 @@ class Raised:
         return "Raised(%s: %s)" % (self.type, self.msg)
 
 
+# ---------------------------------------------------------------------------------------------- call styles
+# The same call written in another legitimate way: optional parameters given explicitly with their documented default
+# values, everything passed positionally, the basis handed over as a tuple instead of a list (or vice versa). The
+# result must not depend on it, so no oracle changes; the style is a function of the case id (replays reproduce it).
+STYLES = ["as-is", "as-is", "explicit-defaults", "positional", "basis-swap-container"]
+STYLE = {"name": "as-is", "counts": {}}
+
+
+def set_style(cid):
+    import hashlib
+
+    STYLE["name"] = STYLES[int(hashlib.sha1(str(cid).encode()).hexdigest(), 16) % len(STYLES)]
+    return STYLE["name"]
+
+
+def _is_shell_seq(x):
+    return isinstance(x, (list, tuple)) and len(x) > 0 and all(hasattr(s_, "angmom") and hasattr(s_, "exps") for s_ in x)
+
+
+def restyle(fn, a, k):
+    import inspect
+
+    st = STYLE["name"]
+    if st == "as-is":
+        return a, k
+    mod = getattr(fn, "__module__", "") or ""
+    if not mod.startswith(("gbasis.integrals", "gbasis.evals")):
+        return a, k
+    try:
+        if not inspect.isfunction(inspect.unwrap(fn)):
+            return a, k
+        sig = inspect.signature(fn)
+        if any(p_.kind is not inspect.Parameter.POSITIONAL_OR_KEYWORD for p_ in sig.parameters.values()):
+            return a, k
+        ba = sig.bind(*a, **k)
+    except (TypeError, ValueError):
+        return a, k  # a deliberately malformed call is left exactly as written
+    STYLE["counts"][st] = STYLE["counts"].get(st, 0) + 1
+    if st == "basis-swap-container":
+        a = tuple((tuple(x) if isinstance(x, list) else list(x)) if _is_shell_seq(x) else x for x in a)
+        k = {kk: ((tuple(x) if isinstance(x, list) else list(x)) if _is_shell_seq(x) else x) for kk, x in k.items()}
+        return a, k
+    npos = len(a)
+    ba.apply_defaults()
+    names = list(ba.arguments)
+    if st == "positional":
+        return tuple(ba.arguments[n_] for n_ in names), {}
+    return tuple(ba.arguments[n_] for n_ in names[:npos]), {n_: ba.arguments[n_] for n_ in names[npos:]}
+
+
 def call(fn, *a, **k):
     """Call gbasis; exceptions become values so that the driver judges them (never a harness error)."""
     try:
+        a, k = restyle(fn, a, k)
         return fn(*a, **k)
     except Exception as exc:  # noqa: BLE001
         return Raised(exc)
